@@ -52,9 +52,8 @@ class _Capture(logging.Handler):
 
 
 def build_format(site, k):
-    """(format string, positional field indices, keyword field indices) of a site."""
+    """The site's PEP-3101 format string; the leading tag makes every message attributable to its site."""
     out = [f"S{k}|"]
-    auto = 0
     for p in site["pieces"]:
         if p[0] == "lit":
             out.append(p[1])
@@ -62,7 +61,6 @@ def build_format(site, k):
         _, fi, spec = p
         ref = {"auto": "", "pos": str(fi), "kw": f"f{fi}"}[site["style"]]
         out.append("{" + ref + (":" + spec if spec else "") + "}")
-        auto += 1
     return "".join(out)
 
 
@@ -423,8 +421,8 @@ def _gen_field(rng, argw):
 class Prop(PropBase):
     ID = "C34"
     tiers = {
-        "quick": {"runs": 400, "selftest_runs": 4},
-        "thorough": {"runs": 9000, "selftest_runs": 32},
+        "quick": {"runs": 1200, "selftest_runs": 4},
+        "thorough": {"runs": 30000, "selftest_runs": 32},
     }
     rule = ("one run = one generated design (1-2 TModules, 0-3 transactions, 0-2 methods, 2-5 log sites of level "
             "debug/info/warning/error/assertion under nested If/Elif/Else/Switch inside or outside bodies; format "
@@ -501,7 +499,7 @@ class Prop(PropBase):
 
     def features(self, cfg, viol):
         info = viol.get("info") or {}
-        return {"where": info.get("where"), "level": info.get("level"), "fatal": cfg["fatal"]}
+        return {"where": info.get("where"), "level": info.get("level")}
 
     def cfg_signature(self, cfg):
         return [cfg["prog"], cfg["sites"], cfg["sched"], cfg["fatal"], cfg["min_level"], cfg["ns"]]
